@@ -8,7 +8,7 @@ from graphql import GraphQLError, GraphQLSyntaxError, parse, print_ast, print_sc
 from graphql.validation import specified_rules
 
 from ..gen import docmut, src
-from ..gen.doc import DocGen, directive_argument_soup
+from ..gen.doc import DocGen, directive_argument_soup, oneof_literal_soup
 from ..gen.schemas import rich_inc as rich
 from ..mon.astutil import plain
 from ..ref import lexer as R1
@@ -324,7 +324,7 @@ def run_shard(ctx):
     # every executable directive at every kind of position of every operation type, well- and ill-typed arguments
     inc = rich()
     inc_snapshot = print_schema(inc)
-    for i, text in enumerate(directive_argument_soup(inc)):
+    for i, text in enumerate(directive_argument_soup(inc) + oneof_literal_soup()):
         if ctx.mine(i):
             ctx.count("directive_argument_documents")
             check_doc(ctx, inc, text, ctx.rng, "directive-argument soup", inc_snapshot)
